@@ -219,6 +219,14 @@ pub fn child(args: &Args) -> i32 {
         // durability-order monitor: markers are written by the thread that runs the pass
         let marker = vbase::durability::Marker::open(args.get_str("mark"));
         let stop_after = args.get_u64("stop_after", 0);
+        // the pass must not outrun the thread that raises the stop flag (a fresh, busy sandbox
+        // once saw no partial pass in three attempts): 1.5 ms per block at hook H4d
+        if std::env::var("VERIF_SLOW_FREEZE_MS").is_err() {
+            vnode::hooks::install();
+            let mut points = BTreeMap::new();
+            points.insert("shared::freeze_before_fetch_block", (2000u64, 1_500u64));
+            vnode::hooks::set_plan(vnode::hooks::DelayPlan { points, seed: 1 });
+        }
         let fz = node.shared.store().freezer().expect("freezer enabled");
         let mut passes = vec![];
         for pass in 1..=2u64 {
